@@ -951,6 +951,20 @@ def hmf_traces(ctx, rep, behaviours):
                 add({'how': 'stepped', 'N': N, 'M': M, 'R': R, 'K': K, 'nn': nn, 'niter': 2,
                      'epsilon': 0.1 if eps else (None if (K + N) % 2 else 0), 'ops': list(ops),
                      'dseed': rng.randrange(2**31)})
+    # ---- SIZE classes: many spectra / many pixels around typical block sizes, other dimensions small ----
+    tall = [(257, 12), (300, 12), (513, 10)] if ctx.quick else [(255, 12), (256, 12), (257, 12), (300, 12), (513, 10), (1025, 8)]
+    wide = [(12, 257), (10, 300)] if ctx.quick else [(12, 255), (12, 256), (12, 257), (10, 300), (8, 513), (6, 1025)]
+    for (nn, eps, ops) in sorted(behaviours):
+        if len([o for o in ops if o == 'astepnn']) > 3:
+            continue                             # (one warm-up variant of the non-negative behaviours is enough here)
+        for (N, M) in (tall + wide if not nn else tall[1:2] + wide[:1]):
+            for K in ((2,) if ctx.quick else (1, 2, 3)):
+                add({'how': 'stepped', 'N': N, 'M': M, 'R': 2, 'K': K, 'nn': nn, 'niter': 2,
+                     'epsilon': 0.1 if eps else None, 'ops': list(ops), 'dseed': rng.randrange(2**31)})
+    for (N, M, nn) in [(300, 12, False), (12, 300, False), (257, 10, True)] + \
+            ([] if ctx.quick else [(513, 10, False), (10, 513, False), (256, 12, False), (12, 257, True)]):
+        add({'how': 'solve', 'N': N, 'M': M, 'R': 2, 'K': 2, 'nn': nn, 'epsilon': None, 'seed': rng.randrange(0, 10**6),
+             'niter': 2, 'dseed': rng.randrange(2**31)})
     # ---- full solve() runs, each with a same-seed twin ----
     for nn in (False, True):
         for epsilon in (None, 0, 0.1):
@@ -1003,6 +1017,18 @@ def small_rational(x, scale=1.0):
 
 
 def record_wls(rng):
+    if rng.random() < 0.04:                      # tall integer systems (hundreds of rows; exact denominators stay <= 10^4)
+        if rng.random() < 0.6:
+            N = rng.choice([255, 256, 257, 300, 513])
+            A = [[rng.randint(-2, 2)] for _ in range(N)]
+            conv = rng.choice(['2d', 'int', '1d'])
+        else:
+            N = rng.choice([63, 64, 65, 100])
+            A = [[1, rng.randint(-1, 1)] for _ in range(N)]
+            conv = rng.choice(['2d', 'int'])
+        b = [rng.randint(-6, 6) for _ in range(N)]
+        s = [rng.choice([0, 1, 1, 1]) for _ in range(N)]
+        return wls_record(A, b, s, conv, attr_order(rng), rng.choice(LAYOUTS))
     M = rng.choice([1, 1, 2, 2, 3])
     if M == 1:
         N, av, sv, bv = rng.randint(1, 6), 5, 3, 6
@@ -1126,7 +1152,7 @@ def wlsf_record(mode, N, M, dseed):
 
 def record_wlsf(rng, k):
     mode = ['highsn', 'noisefree', 'tinyunits', 'ordinary', 'highsn', 'hugeunits'][k % 6]
-    return wlsf_record(mode, rng.choice([20, 60, 200]), rng.choice([1, 2, 3]), rng.randrange(2**31))
+    return wlsf_record(mode, rng.choice([20, 60, 200] + BLOCK_SIZES[5:]), rng.choice([1, 2, 3]), rng.randrange(2**31))
 
 
 def sc(v, s=PS):
@@ -1170,16 +1196,27 @@ def pcomp_record(x, std, cov, layout='plain'):
     return rec
 
 
+# SIZE classes: numbers of rows / spectra / pixels just below, at and just past typical internal block sizes, with the
+# other dimensions small so that it stays cheap (a blocked or batched implementation must cover the ragged last block)
+BLOCK_SIZES = [63, 64, 65, 127, 129, 255, 256, 257, 300, 511, 513, 1025]
+
+
 def record_pca(rng, quick, k):
+    if k % 8 == 5:                               # many objects, few pixels
+        return pca_record(rng.choice([257, 300]) if quick else rng.choice(BLOCK_SIZES[5:11]), rng.choice([0, 1]),
+                          rng.choice([1, 3]), rng.choice([1, 2]), rng.randrange(2**27) * 8 + k % 8, M=rng.choice([16, 24]))
+    if k % 8 == 6:                               # few objects, many pixels
+        return pca_record(rng.choice([6, 10]), rng.choice([0, 1]), rng.choice([1, 3]), rng.choice([1, 2]),
+                          rng.randrange(2**27) * 8 + k % 8, M=rng.choice([257, 300]) if quick else rng.choice(BLOCK_SIZES[5:11]))
     N = 10 if quick else rng.choice([10, 16, 20])
     # (the data seed also fixes layout = LAYOUTS[dseed % 4] and the 0-d scalar form: cycle through all of them)
     return pca_record(N, rng.choice([0, 1]), rng.choice([1, 3]), rng.choice([1, 2, 3]), rng.randrange(2**27) * 8 + k % 8)
 
 
-def pca_record(N, maxiter, niter, nkeep, dseed):
+def pca_record(N, maxiter, niter, nkeep, dseed, M=None):
     from pydl.pydlspec2d.spec1d import pca_solve
     nrng = np.random.RandomState(dseed)
-    M = 2 * N
+    M = M or 2 * N
     S, iv = make_data(nrng, N, M, 2, False, 0.12)
     for i in range(N):
         if not iv[i].any():
@@ -1458,7 +1495,7 @@ def replay(ctx, case):
         elif old['kind'] == 'pcomp':
             rec = pcomp_record(old['x'], old['std'], old['cov'], old.get('layout', 'plain'))
         else:
-            rec = pca_record(old['shape'][0], old['maxiter'], old['niter'], old['nkeep'], old['dseed'])
+            rec = pca_record(old['shape'][0], old['maxiter'], old['niter'], old['nkeep'], old['dseed'], old['shape'][1])
         judged = core.validate_records(ctx, 'Trace_LinSolve', [rec], extra_env={'VERIF_MODE': 'recs'})
         print('re-recorded %s call: %s\nTrace_LinSolve verdict: %s' % (
             rec['kind'], {x: rec[x] for x in list(rec)[:8]}, judged.get(0, 'accepted')))
